@@ -391,6 +391,45 @@ func sink(c fiber.Ctx) error {
 
 // ---------------------------------------------------------------------------------------------
 
+// declaredBody is the largest body size announced anywhere in the bytes: a Content-Length value or
+// a chunk-size line.
+func declaredBody(raw []byte) uint64 {
+	var worst uint64
+	for i := 0; i < len(raw); i++ {
+		if i > 0 && raw[i-1] != '\n' && raw[i-1] != ' ' {
+			continue
+		}
+		// decimal after "content-length: ", hex on a line of its own
+		if isDigit(raw[i]) && hasSuffixFold(raw[:i], "content-length: ") {
+			var v uint64
+			for j := i; j < len(raw) && isDigit(raw[j]) && v < 1<<40; j++ {
+				v = v*10 + uint64(raw[j]-'0')
+			}
+			if v > worst {
+				worst = v
+			}
+		} else if isHexDigit(raw[i]) && i > 1 && raw[i-1] == '\n' {
+			var v uint64
+			j := i
+			for ; j < len(raw) && isHexDigit(raw[j]) && v < 1<<40; j++ {
+				c := raw[j]
+				switch {
+				case c <= '9':
+					v = v<<4 | uint64(c-'0')
+				case c >= 'a':
+					v = v<<4 | uint64(c-'a'+10)
+				default:
+					v = v<<4 | uint64(c-'A'+10)
+				}
+			}
+			if j < len(raw) && (raw[j] == '\r' || raw[j] == ';') && v > worst {
+				worst = v
+			}
+		}
+	}
+	return worst
+}
+
 // neutralise rewrites every occurrence of a marker (case-insensitive for header names) by a
 // same-length non-marker so that the request keeps its framing but loses the feature.
 func neutralise(in []byte, marker string) ([]byte, bool) {
@@ -446,11 +485,18 @@ func allocSite(e *ev.Env, c *ev.Case, mk func() *fiber.App, input []byte, limit,
 	}
 	if best == "flash-cookie" {
 		best = "flash-cookie-other"
-		i := bytes.Index(input, []byte(fiber.FlashCookieName+"="))
-		if i >= 0 && i+len(fiber.FlashCookieName)+1 < len(input) {
-			b := input[i+len(fiber.FlashCookieName)+1]
-			if b == 0xdc || b == 0xdd || b&0xf0 == 0x90 {
-				best = "flash-cookie-array-header"
+		name := []byte(fiber.FlashCookieName + "=")
+		for off := 0; ; {
+			i := bytes.Index(input[off:], name)
+			if i < 0 {
+				break
+			}
+			off += i + len(name)
+			if off < len(input) {
+				if b := input[off]; b == 0xdc || b == 0xdd || b&0xf0 == 0x90 {
+					best = "flash-cookie-array-header"
+					break
+				}
 			}
 		}
 	}
@@ -479,7 +525,7 @@ func judgeStream(e *ev.Env, c *ev.Case, cfg string, input, out []byte) ([]*stric
 		if len(rs) > 0 {
 			scan -= len(rs[len(rs)-1].Raw)
 		}
-		if cls := flashCookieBytes(out[scan:]); cls != "" && (strings.HasPrefix(site, "set-cookie:") || site == "injected-header-line" || site == "?") {
+		if cls := flashCookieBytes(out[scan:]); cls != "" {
 			// the flash cookie is raw MessagePack: name the worst byte class it carries rather
 			// than the first one met (old-input entries come in map order)
 			sig = "wellformed|flash-cookie-raw-bytes|" + cls
@@ -697,7 +743,9 @@ func surviveCase(e *ev.Env, c *ev.Case, o appOpts, reqs []*rq, raw []byte, mutat
 	var out []byte
 	if len(reqs) == 1 {
 		// (1) + (3): single request, measured
-		limit := budget(len(raw))
+		// the server may buffer what the client announces as body, up to the configured
+		// BodyLimit (fasthttp sizes the body buffer from Content-Length / chunk sizes)
+		limit := budget(len(raw)) + 2*min(declaredBody(raw), uint64(o.bodyLimit()))
 		d, o2, panicked := measure(e, c, "survive", mk, raw, limit, 5)
 		e.Eval(1)
 		if panicked {
@@ -724,12 +772,10 @@ func surviveCase(e *ev.Env, c *ev.Case, o appOpts, reqs []*rq, raw []byte, mutat
 	rs, ok := judgeStream(e, c, cfg, raw, out)
 	fin := finals(rs)
 	for _, r := range fin {
-		for _, h := range r.Hdr {
-			if !knownRespHeader[strings.ToLower(h.Name)] {
-				e.Violation(c, "wellformed|unexpected-header-line", "response carries a header line the application never set: "+h.Name,
-					map[string]any{"config": cfg, "input_hex": hexOf(raw), "input": show(raw), "output": show(out), "header": h.Name})
-				break
-			}
+		if name, after := injectedLine(r.Raw); name != "" {
+			// parsed, but with a header line the application never set
+			e.Violation(c, "wellformed|injected-header-line|after:"+after, "response carries the header line "+name+" which the application never set",
+				map[string]any{"config": cfg, "input_hex": hexOf(raw), "input": show(raw), "output": show(out), "header": name})
 		}
 		oc := r.Get("X-Outcome")
 		e.Nontrivial(cfg, itoa(r.Status), oc)
